@@ -23,6 +23,7 @@ type CEnv struct {
 	lookup func(string) (Term, bool)
 	globalOf func(*types.Var) (Term, bool)
 	pre    *CEnv
+	iter   *CEnv
 }
 
 func (w *World) newEnv(pkg *packages.Package) *CEnv {
@@ -31,7 +32,7 @@ func (w *World) newEnv(pkg *packages.Package) *CEnv {
 }
 
 func (e *CEnv) child() *CEnv {
-	c := &CEnv{w: e.w, pkg: e.pkg, vars: map[string]Term{}, old: e.old, depth: e.depth, nq: e.nq, lookup: e.lookup, pre: e.pre, globalOf: e.globalOf}
+	c := &CEnv{w: e.w, pkg: e.pkg, vars: map[string]Term{}, old: e.old, depth: e.depth, nq: e.nq, lookup: e.lookup, pre: e.pre, iter: e.iter, globalOf: e.globalOf}
 	for k, v := range e.vars {
 		c.vars[k] = v
 	}
@@ -146,7 +147,11 @@ func (e *CEnv) eval(x CExpr) Term {
 	case *CSelect:
 		// package-qualified constant?
 		if id, ok := n.X.(*CIdent); ok {
-			if _, isVar := e.vars[id.Name]; !isVar {
+			_, isVar := e.vars[id.Name]
+			if !isVar && e.lookup != nil {
+				_, isVar = e.lookup(id.Name)
+			}
+			if !isVar {
 				if tp := e.w.findPkgByName(id.Name, e.pkg); tp != nil {
 					if c, ok := tp.Scope().Lookup(n.Sel).(*types.Const); ok {
 						return e.w.constTerm(c.Val(), c.Type())
@@ -355,6 +360,11 @@ func (e *CEnv) call(n *CCall) Term {
 				cfail("old() not available here")
 			}
 			return e.old.eval(n.Args[0])
+		case "iter":
+			if e.iter == nil {
+				cfail("iter() only available in loop step clauses")
+			}
+			return e.iter.eval(n.Args[0])
 		case "pre":
 			if e.pre == nil {
 				cfail("pre() only available in loop contracts")
@@ -405,6 +415,33 @@ func (e *CEnv) call(n *CCall) Term {
 				cfail("%v", err)
 			}
 			return mkMath(strconv.Itoa(e.reg().TypeID(t)))
+		case "unbox": // unbox(x, T): the value of struct/pointer type T stored in interface x
+			v := e.eval(n.Args[0])
+			ts := cexprString(n.Args[1])
+			t, err := e.w.resolveType(ts, e.pkg)
+			if err != nil {
+				cfail("%v", err)
+			}
+			sort := e.reg().SortOf(t)
+			name := "unbox_" + sanitize(sort)
+			if !e.reg().unboxFns[name] {
+				e.reg().unboxFns[name] = true
+				e.reg().uninterp = append(e.reg().uninterp, "(declare-fun "+name+" (Int) "+sort+")")
+			}
+			return Term{S: "(" + name + " (any_oid " + v.S + "))", T: t}
+		case "isboxed": // isboxed(x, T): x holds a value of struct/pointer type T
+			v := e.eval(n.Args[0])
+			t, err := e.w.resolveType(cexprString(n.Args[1]), e.pkg)
+			if err != nil {
+				cfail("%v", err)
+			}
+			return mkBool("(and ((_ is any_other) " + v.S + ") (= (any_oty " + v.S + ") " + strconv.Itoa(e.reg().TypeID(t)) + "))")
+		case "val": // val(p): the value a pointer points to
+			v := e.eval(n.Args[0])
+			if _, ok := v.T.Underlying().(*types.Pointer); !ok {
+				cfail("val() of non-pointer")
+			}
+			return e.reg().deref(v)
 		case "anyint":
 			v := e.eval(n.Args[0])
 			return mkMath("(any_iv " + v.S + ")")
